@@ -133,6 +133,9 @@ func buildPayload(encoders []ABIEncoder, values []llo.StreamValue) (payload []by
 		return nil, fmt.Errorf("ABI and values length mismatch; ABI: %d, Values: %d", len(encoders), len(values))
 	}
 
+	// errors are collected and joined once: joining one by one nests the joined
+	// errors, and formatting an N-deep nesting costs time and memory quadratic in N
+	var errs []error
 	for i, encoder := range encoders {
 		b, err := encoder.EncodePadded(values[i])
 		if err != nil {
@@ -146,13 +149,13 @@ func buildPayload(encoders []ABIEncoder, values []llo.StreamValue) (payload []by
 					vStr = []byte(fmt.Sprintf("%v(failed to marshal: %s)", values[i], marshalErr))
 				}
 			}
-			merr = errors.Join(merr, fmt.Errorf("failed to encode stream value %s at index %d; %w", string(vStr), i, err))
+			errs = append(errs, fmt.Errorf("failed to encode stream value %s at index %d; %w", string(vStr), i, err))
 			continue
 		}
 		payload = append(payload, b...)
 	}
 
-	return payload, merr
+	return payload, errors.Join(errs...)
 }
 
 func (r ReportCodecEVMABIEncodeUnpacked) Verify(cd llotypes.ChannelDefinition) error {
